@@ -5,6 +5,7 @@ use resynth::{error, ok, warn};
 use resynth::{Error, Lexer, Loc, Parser, Program, EOF};
 
 use std::borrow::Cow;
+use std::ffi::OsString;
 use std::io::BufRead;
 use std::path::{Path, PathBuf};
 use std::{fs, io};
@@ -163,6 +164,7 @@ fn resynth() -> Result<(), ()> {
                 .help("Sets the input file to use")
                 .value_name("FILE")
                 .required(true)
+                .value_parser(value_parser!(OsString))
                 .action(ArgAction::Append)
                 .index(1),
         )
@@ -199,7 +201,7 @@ fn resynth() -> Result<(), ()> {
 
     let use_filenames = argv.contains_id("out");
 
-    let in_args = argv.get_many::<String>("in").unwrap();
+    let in_args = argv.get_many::<OsString>("in").unwrap();
 
     let out_args = argv
         .get_many::<PathBuf>("out")
